@@ -29,4 +29,7 @@ def obligations(tier):
     obls += _borrow("C18", ["clean_requests"], tier)
     # second daemon instance refuses to touch the queue
     obls.append(_plan("C16").startup_obligation())
+    # ... and the running daemon never gives the mutex up, also not while draining after TERM (checked in the main-loop harness)
+    from vlib import borrow
+    obls += borrow("C16", ["select_timeout"], tier)
     return obls
